@@ -220,4 +220,189 @@ theorem undercount_witness_name_reuse :
     s.calls.map (fun c => (c.verb, c.job, c.res)) = [("start", "x", "ok")] ∧
     getCtr s.counter "u" = 1 ∧ trueActive s "u" = 2 := by decide
 
+/-! ### (g) known findings F26, F27, F28 (and F35): the witnesses that delimit the enveloped theorems
+
+`never_over_limit`, `counter_upper` and `quiescent_exact` above are theorems about `Reachable`, whose
+actions (`Proofs/QueueEnv.Act`, `Allowed`) fix three assumptions about the environment that C05's
+text does not grant ("all restart points (the active count is rebuilt from the API); all patterns
+of failed/conflicting start writes"):
+
+* E-ErrNotApplied     `Allowed (.fault f) = okFault f`: a write reported as failed was not applied;
+* E-FreshInitialList  `Act.restart` sets the caches to the server's CURRENT state;
+* E-QuiescentRecover  `Act.restart` recounts atomically: nothing reaches the cache between the
+                      registration of the store's handler and the lister read of `Store.Recover`.
+
+Each witness below is the shortest history outside exactly one of them, evaluated on the executable
+model by `decide`; the harness replays the same history on the real `Store`, `PerConfigReconciler`
+and `JobControl` (corpus scenarios `f26-start-write-applied-but-reported-failed`,
+`f27-recover-window-double-decrement`, `f28-stale-initial-list-undercounts` of the `queue` engine,
+model and code agreeing line by line) and the monitor `never-over-limit` fires there.  They are
+recorded in KNOWN_FINDINGS.jsonl; none is repaired (reasons there and in DESIGN.md §6 C05). -/
+
+/-- an Enqueue Job of JobConfig `c` -/
+def enq (n : String) : JobV := mkJob n true true 2 none
+
+/-- JobConfig `c` (limit 1) and the Enqueue Job `j01`, everything delivered, `j01` queued -/
+def histE : List Act := [.addJC jcC, .deliverJC, .addJob (enq "j01")] ++ flush
+
+/-- F26: the start write of `j01` is applied but reported as failed (rollback); the start event
+goes through the pipeline (the store does not count unstarted → started); `j02` is created and
+delivered.  (The harness scenario also runs the rate-limited retry between the failed pass and the
+delivery; its body is `syncConfig s1 "c"` below: Conflict on the cached copy, rolled back again.) -/
+def histF26 : List Act :=
+  histE ++ [.fault "applied-err", .workConfig] ++ flush ++ [.addJob (enq "j02")] ++ flush
+
+/-- F26 (outside E-ErrNotApplied): the start write of `j01` is applied but reported as failed; the
+rollback and the retry's Conflict leave the counter at 0 while `j01` is active, the informer's
+unstarted → started is not counted, and the Enqueue Job `j02` is started with 1 active Job and
+limit 1. -/
+theorem f26_applied_but_reported_failed_witness :
+    let s1 := runActs {} (histE ++ [.fault "applied-err", .workConfig])
+    let s := runActs {} histF26
+    allowedAllB {} histE = true ∧                            -- inside the envelope up to the fault
+    allowedAllB {} histF26 = false ∧                         -- E-ErrNotApplied is the assumption left
+    -- the write was applied, the pass failed, the reservation was rolled back
+    s1.calls.map (fun c => (c.verb, c.job, c.res)) = [("start", "j01", "ok")] ∧
+    trueActive s1 "u" = 1 ∧ getCtr s1.counter "u" = 0 ∧
+    -- the retry submits the cached copy: Conflict (stale resourceVersion), rolled back again
+    (syncConfig s1 "c").2 = false ∧
+    (syncConfig s1 "c").1.calls.map (fun c => (c.verb, c.job, c.res))
+      = [("start", "j01", "ok"), ("start", "j01", "conflict")] ∧
+    getCtr (syncConfig s1 "c").1.counter "u" = 0 ∧
+    -- quiescent, the counter is 0, one Job is active
+    s.jobEvs = [] ∧ s.storeQ = [] ∧ getCtr s.counter "u" = 0 ∧ trueActive s "u" = 1 ∧
+    -- the Enqueue Job j02 is started with 1 active Job and limit 1
+    (workConfigObs s).2.map (fun o => (o.job.name, o.job.policy, o.activeBefore, o.maxConc))
+      = [("j02", 2, 1, 1)] ∧
+    trueActive (workConfig s).1 "u" = 2 := by decide
+
+/-- the state just before the new process starts in F28: `j01` was started by the pass, its update
+event has not been delivered to anybody -/
+def histF28pre : List Act := histE ++ [.workConfig]
+
+/-- F28: the process dies right after starting `j01`; the new process's initial LIST is the old
+cache (`restartStale 0 0`: `j01` unstarted), the watch replays unstarted → started (ignored by the
+store: "CheckAndAdd did it" — in the dead process), `j02` is created and delivered. -/
+theorem f28_stale_initial_list_witness :
+    let s0 := runActs {} histF28pre
+    let s1 := restartStale s0 0 0
+    let post : List Act := [.addJob (enq "j02")] ++ flush ++ flush
+    let s := runActs s1 post
+    allowedAllB {} histF28pre = true ∧                       -- `s0` is a reachable state
+    allowedAllB s1 post = true ∧                             -- and so is every later action
+    trueActive s0 "u" = 1 ∧ s0.jobEvs.length = 1 ∧
+    getCtr (restart s0).counter "u" = 1 ∧                    -- a fresh LIST would count j01
+    getCtr s1.counter "u" = 0 ∧ s1.jobEvs.length = 1 ∧       -- the stale LIST does not; the event is replayed
+    s.jobEvs = [] ∧ s.storeQ = [] ∧ getCtr s.counter "u" = 0 ∧ trueActive s "u" = 1 ∧
+    (workConfigObs s).2.map (fun o => (o.job.name, o.job.policy, o.activeBefore, o.maxConc))
+      = [("j02", 2, 1, 1)] ∧
+    trueActive (workConfig s).1 "u" = 2 := by decide
+
+/-- the state just before the new process starts in F27: `j01` is active, everything has been
+delivered, and the previous leader's last write has just finished `j01` (event undelivered) -/
+def histF27pre : List Act := histE ++ [.workConfig] ++ flush ++ [.finishJob "j01"]
+
+/-- … or a user has just removed the active `j01` (it carries no finalizer) -/
+def histF27preDel : List Act := histE ++ [.workConfig] ++ flush ++ [.removeJob "j01"]
+
+/-- F27: the new process's initial LIST is older than that write (`j01` active), the store's
+handler registers, the watch delivers the write inside `Recover`'s window (`restartStaleWin 0 0 1`),
+then `Recover` reads the lister: `j01` is not counted AND is decremented by its notification.
+Counter −1; `j02` and `j03` both start with limit 1.  Same for the removal. -/
+theorem f27_recover_window_witness :
+    let post : List Act :=
+      [.notifyStore, .addJob (enq "j02")] ++ flush ++ [.addJob (enq "j03")] ++ flush
+    (∀ pre ∈ [histF27pre, histF27preDel],
+      let s0 := runActs {} pre
+      let s1 := restartStaleWin s0 0 0 1
+      let s := runActs s1 post
+      allowedAllB {} pre = true ∧ allowedAllB s1 post = true ∧
+      getCtr s0.counter "u" = 1 ∧ s0.jobEvs.length = 1 ∧
+      -- atomic Recover on the same stale LIST is right (the event then arrives as a notification
+      -- for a Job that WAS counted), and so is a fresh LIST
+      getCtr (runActs (restartStale s0 0 0) [.deliverJob, .notifyStore]).counter "u" = 0 ∧
+      getCtr (restart s0).counter "u" = 0 ∧
+      -- the window: not counted by the list, notification pending
+      getCtr s1.counter "u" = 0 ∧ s1.storeQ.length = 1 ∧ s1.ctrlQ = [] ∧ s1.jobEvs = [] ∧
+      getCtr (notifyStore s1).counter "u" = -1 ∧ trueActive s1 "u" = 0 ∧
+      -- both Enqueue Jobs are started in one pass, the second one with 1 active Job and limit 1
+      s.jobEvs = [] ∧ s.storeQ = [] ∧ getCtr s.counter "u" = -1 ∧
+      (workConfigObs s).2.map (fun o => (o.job.name, o.job.policy, o.activeBefore, o.maxConc))
+        = [("j02", 2, 0, 1), ("j03", 2, 1, 1)] ∧
+      trueActive (workConfig s).1 "u" = 2) := by decide
+
+/-- inside E-FreshInitialList ∧ E-QuiescentRecover (`kj` = all undelivered Job events, `w = 0`) the
+new process start IS `restart` on everything that concerns Jobs, in every state whose pipeline is
+consistent (`Inv.pipe`, in particular every reachable state); the two JobConfig fields are the only
+difference (the model keeps no pipeline invariant for JobConfigs). -/
+theorem restartStaleWin_fresh_jobs (s : Sys) (h : applyEvs s.jobCache s.jobEvs = s.jobs) (kc : Nat) :
+    restartStaleWin s s.jobEvs.length kc 0 =
+      { restart s with jcEvs := s.jcEvs.drop kc,
+                       jcCache := (s.jcEvs.take kc).foldl cacheApplyJC s.jcCache } := by
+  have hc : cacheApplyJob = applyEv := by
+    funext c e; cases e <;> rfl
+  have h' : List.foldl cacheApplyJob s.jobCache s.jobEvs = s.jobs := by rw [hc]; exact h
+  simp [restartStaleWin, restart, iterN, h']
+
+/-- … hence the recount of such a start is exact in every reachable state (the analogue of
+`restart_recounts` for the extended start, inside E-FreshInitialList ∧ E-QuiescentRecover) -/
+theorem restartStaleWin_fresh_recounts {s : Sys} (hr : Reachable s) (kc : Nat) (uid : String) :
+    getCtr (restartStaleWin s s.jobEvs.length kc 0).counter uid = trueActive s uid := by
+  rw [restartStaleWin_fresh_jobs s hr.inv.pipe kc]
+  exact (Furiko.Queue.restart_recounts s uid).1
+
+example : Reachable (runActs {} histF28pre) ∧
+    getCtr (restartStaleWin (runActs {} histF28pre) 1 0 0).counter "u" = 1 :=
+  ⟨reachable_runB _ (by decide), by decide⟩
+
+/-! ### (h) relist after a watch failure (`relist`, ops `q.outage` / `q.relist`) -/
+
+/-- JobConfigs `c` (uid `u`) and `d` (uid `v`), both limit 1 -/
+def jcD : JCV := { name := "d", uid := "v", maxConc := 1, rv := 0 }
+def enqD (n : String) : JobV :=
+  { enq n with label := some "v", ownerName := some "d", ownerUid := some "v" }
+
+/-- `j01` of `c` and `j02` of `d` are running, everything delivered -/
+def histTwo : List Act :=
+  [.addJC jcC, .addJC jcD, .deliverJC, .deliverJC, .addJob (enq "j01")] ++ flush ++
+  [.addJob (enqD "j02")] ++ flush ++ [.workConfig, .workConfig] ++ flush ++ flush
+
+/-- The relist pairs cached and listed objects BY NAME: while the watch is down `j01` (active, of
+`c`) is removed and a new, queued `j01` is created for `d`.  The store is handed
+`OnUpdate(old = j01 of c, new = j01 of d)` and releases the slot of the OLD object's JobConfig: the
+counters end at c = 0, d = 1 and nothing of `d` may start.  (Seeded changes C05w3-2 / C07w3-1 read
+the key from the new object: d = 0 with `j02` active.  Corpus scenario
+`relist-pairs-recreated-job-of-other-jobconfig`.) -/
+theorem relist_pairs_by_name_releases_old_jobconfig :
+    let s0 := runActs {} histTwo
+    let s1 := runActs s0 [.removeJob "j01", .addJob (enqD "j01")]    -- inside the outage: nothing delivered
+    let s2 := relist s1
+    let s := runActs s2 [.notifyStore, .notifyCtrl]
+    allowedAllB {} histTwo = true ∧
+    getCtr s0.counter "u" = 1 ∧ getCtr s0.counter "v" = 1 ∧
+    s2.jobEvs = [] ∧ s2.jobCache = s1.jobs ∧
+    s2.storeQ.map (fun n => match n with
+      | .update o n => (o.name, o.label, o.isActive, n.label, n.isActive)
+      | _ => ("", none, false, none, false)) = [("j01", some "u", true, some "v", false)] ∧
+    getCtr s.counter "u" = 0 ∧ getCtr s.counter "v" = 1 ∧
+    trueActive s "u" = 0 ∧ trueActive s "v" = 1 ∧
+    (workConfigObs s).2 = [] := by decide
+
+/-- F35 (outside E-FinalizerPresent): the watch is down when the pass starts `j01`, so the cache keeps
+the unstarted copy; a user removes `j01` (no finalizer) inside the outage; the relist sends the
+tombstone with the last CACHED state (unstarted) and `Store.OnDelete` does not release the slot
+`CheckAndAdd` reserved.  Counter 1 with no active Job: the Enqueue Job `j02` waits for ever. -/
+theorem f35_relist_leak_witness :
+    let s0 := runActs {} (histE ++ [.workConfig, .removeJob "j01", .addJob (enq "j02")])
+    let s1 := relist s0
+    let s := runActs s1 [.notifyStore, .notifyCtrl, .notifyStore, .notifyCtrl, .workConfig]
+    allowedAllB {} (histE ++ [.workConfig, .removeJob "j01", .addJob (enq "j02")]) = true ∧
+    s1.storeQ.map (fun n => match n with
+      | .add j => ("add", j.name, j.isStarted)
+      | .delete j => ("delete", j.name, j.isStarted)
+      | .update _ j => ("update", j.name, j.isStarted)) = [("add", "j02", false), ("delete", "j01", false)] ∧
+    s.jobEvs = [] ∧ s.storeQ = [] ∧ s.calls = [] ∧           -- quiescent; the pass started nothing
+    getCtr s.counter "u" = 1 ∧ trueActive s "u" = 0 ∧          -- a slot is reserved for nobody
+    (s.jobs.filter (·.isQueued)).map (·.name) = ["j02"] := by decide
+
 end Furiko.Props.C05
